@@ -7,10 +7,12 @@ import (
 	"fmt"
 	"sort"
 	"strings"
+	"time"
 
 	"verif/a"
 	"verif/gqlref"
 
+	"github.com/buildbuildio/pebbles/planner"
 	"github.com/buildbuildio/pebbles/vrt"
 )
 
@@ -86,3 +88,5 @@ func verdictOfSched(s *vrt.Sched) string {
 	}
 	return ""
 }
+
+func newCached() *planner.CachedPlanner { return planner.NewCachedPlanner(time.Hour) }
